@@ -15,7 +15,8 @@ EXPLANATION = (
     "Operator::run edge (TransformInputs, If, Loop) must forward is_deterministic to the inner operators or be "
     "constructor-restricted to deterministic inner operators. prune_plan keeps an operator only under a positive "
     "is_deterministic() guard, and Planner::prune_plan is reachable only through Graph::partial_run, which is the "
-    "single door used by constant propagation. Decides the gate, not the composition equality.")
+    "single door used by constant propagation; operator outputs added to the candidate output list exclude supplied inputs "
+    "(no value listed twice). Decides the gate, not the composition equality.")
 ASSUMPTIONS = ["std::time reached only through rten::timing (profiler timers) is measurement, not output", "variation sinks outside the table (environment variables read for thread-pool sizing, HashMap RandomState seeds) do not flow into operator outputs"]
 
 SINK = re.compile(r'^(fastrand|fastrand_contrib|getrandom)::|^rten_tensor::rng::|^std::time::|^std::sys::.*::time::')
